@@ -598,7 +598,8 @@ def term_attr(it, base, attr, env, node):
 
     if attr in IDENTITY_ATTRS:
         return base
-    if attr in ("real", "imag") and isinstance(base, sp.Basic):
+    if attr in ("real", "imag") and isinstance(base, sp.Basic) and base.has(sp.I):
+        # only a term that spells out its imaginary unit is read as a container of two reals; anything else may itself be complex
         p_ = split_complex(base)
         if p_ is not None:
             return p_[0] if attr == "real" else p_[1]
